@@ -356,3 +356,51 @@ func Harness_C10_mute_unmute() {
 	verifAssert(f2 == "on", "unmuting-an-online-contact-tells-the-user-on")
 	verifReach("end")
 }
+
+// ---- (6) receipts and typing notifications relayed to the 'me' topics of subscribers that are not attached
+// (infoSubsOffline, infoCallSubsOffline): only current subscribers whose effective permissions include both
+// presence and read get one, exactly one each, naming the true sender and the recipient's own name for the topic.
+func harnessC10InfoOffline(kind int) {
+	fx := verifNewTopic(kind, 2)
+	t := fx.topic
+	for _, u := range fx.uids {
+		pud := t.perUser[u]
+		pud.modeWant, pud.modeGiven = verifMode("want"), verifMode("given")
+		if kind == verifKindGrp {
+			pud.deleted = verifNondetBool("removed")
+		}
+		t.perUser[u] = pud
+	}
+	from := fx.uids[0]
+	what := []string{"read", "recv", "kp"}[verifChoose("what", 3)]
+	seq := verifNondetInt("seq")
+	t.infoSubsOffline(from, what, seq, "sid-skip")
+	got := map[string]int{}
+	for _, m := range verifDrainHub(fx.hub) {
+		if m == nil || m.Info == nil {
+			continue
+		}
+		got[m.RcptTo]++
+		uid := types.ParseUserId(m.RcptTo)
+		pud, in := t.perUser[uid]
+		verifAssert(in && !pud.deleted, "receipt-only-to-current-subscribers")
+		mode := pud.modeWant & pud.modeGiven
+		verifAssert(mode.IsPresencer() && mode.IsReader(), "receipt-only-with-presence-and-read-permission")
+		verifAssert(m.Info.From == from.UserId() && m.Info.What == what && m.Info.SeqId == seq, "receipt-names-the-true-sender")
+		verifAssert(m.Info.Topic == "me" && m.Info.Src == t.original(uid), "receipt-names-the-recipients-topic")
+		verifAssert(m.SkipSid == "sid-skip" && m.Info.SkipTopic == t.name, "receipt-skips-the-origin-and-attached-sessions")
+	}
+	for _, u := range fx.uids {
+		pud := t.perUser[u]
+		mode := pud.modeWant & pud.modeGiven
+		want := 0
+		if !pud.deleted && mode.IsPresencer() && mode.IsReader() {
+			want = 1
+		}
+		verifAssert(got[u.UserId()] == want, "every-entitled-subscriber-gets-exactly-one-receipt")
+	}
+	verifReach("end")
+}
+
+func Harness_C10_info_offline_grp() { harnessC10InfoOffline(verifKindGrp) }
+func Harness_C10_info_offline_p2p() { harnessC10InfoOffline(verifKindP2P) }
